@@ -44,6 +44,8 @@ DBlock(nb0, v, k) ==
        [] v = "extm0" -> Vft(None, Append(base, Func("m0", "priv", <<>>, <<ArgM>>, TNone, None, None, "")))
        [] v = "emptyblk" -> Vft(None, <<>>)
        [] v = "trunc" -> Vft(None, SubSeq(base, 1, Len(base) - 1))
+       (* shorter than the base table although its declared size hides it: the first function, padded to two slots *)
+       [] v = "short" -> [Vft(None, SubSeq(base, 1, 1)) EXCEPT !.size = 2]
        [] v = "swap"  -> Vft(None, IF nb0 = 2 THEN <<F2, F1>> ELSE base)
        [] OTHER -> Vft(None, [i \in DOMAIN base |-> IF i = k THEN Mutate(base[i], v) ELSE base[i]] \o <<G>>)
 
@@ -83,9 +85,9 @@ MCInit ==
         clash \in Clash, dd \in DDs, ddv \in DDVft, split \in Split, lead \in Lead, eb \in EmptyBlocks, dvis \in {"pub", "priv"} :
         /\ (dvis = "priv" => (dd # "none" /\ ~split /\ ~lead /\ ~b1v /\ clash = "no"))
         /\ k <= Max(Len(BaseFuncs(nb0)), 1)
-        /\ (v \in {"none", "same", "ext", "extm0", "emptyblk", "trunc", "swap"} => k = 1)
+        /\ (v \in {"none", "same", "ext", "extm0", "emptyblk", "trunc", "swap", "short"} => k = 1)
         /\ (nb0 = 0 => v \in {"none", "ext", "extm0", "emptyblk"})
-        /\ (v = "trunc" => nb0 = 2) /\ (v = "swap" => nb0 = 2)
+        /\ (v = "trunc" => nb0 = 2) /\ (v = "swap" => nb0 = 2) /\ (v = "short" => nb0 = 3)
         /\ (~b1 => ~b1v)
         /\ (dd = "none" => ddv = "no")
         /\ (ddv = "flat" => (v = "none" /\ nb0 = 3))
